@@ -52,7 +52,7 @@ PATHS = [
 # reference values per path: matching, non-matching (same type), other type, None
 VALUES = {
     "header.stationId": (1001, 424242, "abc", None), "header.messageId": (2, 99, "abc", None),
-    "cam.generationDeltaTime": (100, 7, "abc", None), "cam.camParameters.basicContainer.stationType": (5, 9, "5", None),
+    "cam.generationDeltaTime": (0, 7, "abc", None), "cam.camParameters.basicContainer.stationType": (5, 9, "5", None),
     "denm.management.stationType": (15, 9, "abc", None), "denm.management.termination": ("Cancel", "nope", 5, None),
     "vam.vamParameters.vruHighFrequencyContainer.speed.speedValue": (120, 7, "abc", None),
     "denm.situation.informationQuality": (3, 6, "abc", None),
@@ -73,7 +73,12 @@ ORDERS = [None,
           (("stationType", "asc"),), (("stationType", "desc"),),
           (("stationType", "asc"), ("stationId", "asc")), (("stationType", "asc"), ("stationId", "desc")),
           (("stationType", "desc"), ("stationId", "asc")), (("stationType", "desc"), ("stationId", "desc")),
-          (("stationId", "asc"), ("generationDeltaTime", "desc")), (("stationId", "desc"), ("generationDeltaTime", "asc"))]
+          (("stationId", "asc"), ("generationDeltaTime", "desc")), (("stationId", "desc"), ("generationDeltaTime", "asc")),
+          # attributes whose pool values include 0 between a negative and/or positive value (0 is not last in either direction):
+          # generationDeltaTime {0, 50, 70, 100}, stationType {0, 1, 5, 6, 15}, lanePosition {-1, 0}, externalTemperature {-5, 0}
+          (("lanePosition", "asc"),), (("lanePosition", "desc"),), (("externalTemperature", "desc"),),
+          (("lanePosition", "desc"), ("stationId", "asc")), (("stationType", "asc"), ("generationDeltaTime", "asc")),
+          (("messageId", "asc"), ("externalTemperature", "desc"))]
 
 
 def lattice(full, thorough):
